@@ -1,6 +1,6 @@
 (* C07  A full frame decodes to its own parameters whatever was decoded before. *)
 From Coq Require Import ZArith List Bool.
-Require Import PyIR.Base.Result PyIR.IW.IW PyIR.Engine.Parse PyIR.Proto.Descriptor PyIR.Ctl.Instance.
+Require Import PyIR.Base.Result PyIR.IW.IW PyIR.Engine.Parse PyIR.Proto.Descriptor PyIR.Proto.Model PyIR.Ctl.Instance PyIR.Ctl.InstanceChk.
 Import ListNotations.
 Open Scope Z_scope.
 
@@ -18,5 +18,14 @@ Theorem C07_history_independent : forall D t tol s frame,
   res_ident D (snd (fst (decode_inst D t tol s frame))) = res_ident D (snd (fst (decode_inst D t tol fresh frame))).
 Proof. exact full_frame_history_independent. Qed.
 
+(* the same for classes that override decode() after the common template (base decode, the protocol's own checks [chk] -
+   ANY function of the decoded fields -, then the held-key block): whatever the checks are *)
+Theorem C07_history_independent_with_checks : forall D t tol chk s frame,
+  Forall (fun e => e <> PLACEHOLDER) (d_rep_lead_out D) ->
+  List.length frame <> (List.length (d_rep_lead_in D) + List.length (d_rep_lead_out D))%nat ->
+  res_ident D (snd (fst (decode_inst_chk D t tol chk s frame))) = res_ident D (snd (fst (decode_inst_chk D t tol chk fresh frame))).
+Proof. exact full_frame_history_independent_chk. Qed.
+
 Print Assumptions C07_repeat_branch_only_markers.
 Print Assumptions C07_history_independent.
+Print Assumptions C07_history_independent_with_checks.
